@@ -561,8 +561,8 @@ func argIndexes(encodes []*sym.Event) (*sym.Term, []int64, string) {
 		v := ev.Args[1]
 		// unwrap quantize(e, x), uint32(x)
 		for {
-			if v.Op == "call" && v.Name == "quantize" && len(v.Args) == 2 {
-				v = v.Args[1]
+			if q := quantizedArg(v); q != nil {
+				v = q
 				continue
 			}
 			if v.Op == "conv" {
@@ -709,8 +709,8 @@ func innerTrip(li *sym.LoopInfo) (*sym.Term, bool) {
 func rangeWindow(ev *sym.Event, li *sym.LoopInfo) (lo *sym.Term, ok bool) {
 	v := ev.Args[1]
 	for {
-		if v.Op == "call" && v.Name == "quantize" && len(v.Args) == 2 {
-			v = v.Args[1]
+		if q := quantizedArg(v); q != nil {
+			v = q
 			continue
 		}
 		if v.Op == "conv" {
